@@ -5,11 +5,14 @@ package traefikoidc_test
 import (
 	"fmt"
 	mrand "math/rand"
+	"net/http/httptest"
 	"net/url"
 	"strings"
 	"testing"
 	"testing/synctest"
 	"time"
+
+	oidc "github.com/lukaszraczylo/traefikoidc"
 )
 
 type tokOpts struct {
@@ -101,6 +104,66 @@ func (w *world) authorize(ir *initRec) *issuedCode {
 	c := &issuedCode{code: fmt.Sprintf("code%d_%d", w.sc, len(w.codes)+1), challenge: ir.challenge, redirect: ir.redirect, nonce: ir.nonce, browser: w.b, state: ir.state}
 	w.codes[c.code] = c
 	return c
+}
+
+// authorizeDirect: a code the provider issued for an authorization request that did not come from this deployment's login
+// redirect (anyone can send one to the provider by hand): right client and redirect URI, no nonce, no PKCE challenge, and
+// whatever state its sender chose
+func (w *world) authorizeDirect(state string) *issuedCode {
+	c := &issuedCode{code: fmt.Sprintf("direct%d_%d", w.sc, len(w.codes)+1), redirect: "", browser: -1, state: state}
+	w.codes[c.code] = c
+	return c
+}
+
+// rotateKeys: the provider withdraws its signing keys and publishes others. Once every key set an instance may still hold has
+// run out (they are kept for one hour), a token signed with a withdrawn key verifies nowhere any more: from then on it is an
+// invalid token for the model and for every reference oracle. No request is sent in between.
+func (w *world) rotateKeys(rng *mrand.Rand) {
+	old := w.p.keys
+	next := []*signKey{keys()["p256b"], keys()["rsa2048b"]}
+	if len(old) > 0 && old[0] == next[0] {
+		next = []*signKey{keys()["p256a"], keys()["rsa2048a"]}
+	}
+	w.p.mu.Lock()
+	w.p.keys = next
+	w.p.mu.Unlock()
+	w.rec(M{"op": "note", "text": "provider rotated its signing keys"})
+	vsleep(61*time.Minute + time.Duration(rng.Intn(600))*time.Second)
+	for _, t := range w.toks {
+		if t.isJWT && t.key != nil && t.key != next[0] && t.key != next[1] && t.valid {
+			t.valid = false
+			w.register(t)
+		}
+	}
+	T.stat("handler.key-rotations")
+}
+
+// neighbour: a second middleware of the same process configured for a different provider (another router of the same Traefik).
+// Its login and logout redirects must go to its own provider, and the world's instance must keep going to its own.
+const otherIssuer = "https://idp-other.test"
+
+func (w *world) neighbour(when string) {
+	op := newProvider(keys()["p384"])
+	op.base = otherIssuer
+	nd := &down{}
+	ni := newInstance(op, nd, func(c *oidc.Config) {
+		c.ProviderURL = otherIssuer
+		c.PostLogoutRedirectURI = "/"
+	})
+	T.stat("handler.neighbour-instances")
+	for _, path := range []string{"/private", "/cb/logout"} {
+		req := httptest.NewRequest("GET", "http://other-app.test"+path, nil)
+		rec := httptest.NewRecorder()
+		ni.ServeHTTP(rec, req)
+		loc := rec.Header().Get("Location")
+		okLoc := strings.HasPrefix(loc, otherIssuer+"/") || strings.HasPrefix(loc, "http://other-app.test/") || strings.HasPrefix(loc, "/") && !strings.HasPrefix(loc, "//")
+		if rec.Code == 302 && !okLoc {
+			T.oracle("C15", "redirect of an instance configured for another provider goes neither to that provider nor to its own origin", M{"path": path, "location": trunc(loc, 160), "its_provider": otherIssuer, "created": when}, w.replay())
+		}
+		if path == "/private" && (rec.Code != 302 || !strings.HasPrefix(loc, otherIssuer+"/auth?")) {
+			T.oracle("C15", "login redirect of an instance configured for another provider does not go to that provider's authorization endpoint", M{"status": rec.Code, "location": trunc(loc, 160), "its_provider": otherIssuer, "created": when}, w.replay())
+		}
+	}
 }
 
 type loginResult struct {
@@ -246,9 +309,9 @@ func (w *world) plain(rawURI string, rs reqSpec, rng *mrand.Rand) M {
 	tok := w.loginTok[b]
 	own := w.loggedIn[b] && !w.tampered[b] && tok != nil
 	gatesOK := own && w.refDomainOK(tok.email) && (len(w.roles) == 0 || w.refRolesOK(tok))
-	fresh := own && now-w.loginAt[b] <= 86400 && tok.accFrom <= now
+	fresh := own && now-w.loginAt[b] <= 86400 && tok.accFrom <= now && tok.valid
 	expectForward := !special && fresh && gatesOK && tok.exp-now > int64(w.grace) && !(rs.method == "OPTIONS" && rs.origin != "")
-	refreshDue := !special && own && now-w.loginAt[b] <= 86400 && w.rtOf[b] != "" && (tok.exp-now < int64(w.grace) || now > tok.accTo)
+	refreshDue := !special && own && now-w.loginAt[b] <= 86400 && w.rtOf[b] != "" && (tok.exp-now < int64(w.grace) || now > tok.accTo || !tok.valid)
 	if refreshDue && rs.refresh == nil {
 		// always give the provider an answer to serve
 		rs.refresh = w.randomRefreshAnswer(rng)
@@ -613,8 +676,15 @@ func familyHandler(t *testing.T) {
 		}
 		nScen := T.size(70, 500)
 		for sc := 0; sc < nScen; sc++ {
+			neighbourFirst := prop == "C15" && sc%8 == 5
+			if neighbourFirst { // the other provider's instance exists (and has fetched its metadata) before this world's instance is built
+				(&world{sc: sc}).neighbour("before the application's instance")
+			}
 			w := newWorld(sc, rng)
 			w.rng = rng
+			if prop == "C15" && sc%8 == 1 {
+				w.neighbour("after the application's instance")
+			}
 			w.scripted(prop, sc, rng)
 			w.randomWalk(prop, rng, T.size(14, 30))
 		}
@@ -630,6 +700,21 @@ func (w *world) scripted(prop string, sc int, rng *mrand.Rand) {
 		case 0: // callback before any initiation, with and without parameters
 			w.callback("", nil, tokOpts{}, "", reqSpec{note: "callback before any initiation, no parameters"}, rng)
 			w.callback("some-state", &issuedCode{code: "nocode"}, w.randomTokOpts(rng, true), "", reqSpec{note: "callback before any initiation"}, rng)
+			// codes the provider honours although no login redirect of this deployment asked for them (ID token without nonce)
+			w.callback("", w.authorizeDirect(""), w.randomTokOpts(rng, true), "rt-d0", reqSpec{note: "callback before any initiation: no state, a code obtained directly from the provider"}, rng)
+			w.callback("chosen-by-sender", w.authorizeDirect("chosen-by-sender"), w.randomTokOpts(rng, true), "", reqSpec{note: "callback before any initiation: sender-chosen state, a code obtained directly from the provider"}, rng)
+			if sc%12 == 0 { // the same against a browser that has a pending login, and one that is logged in
+				w.visit("/pending", reqSpec{note: "initiate"})
+				if ir := w.lastInit[w.b]; ir != nil {
+					w.callback("", w.authorizeDirect(""), w.randomTokOpts(rng, true), "", reqSpec{note: "pending login: no state, direct code"}, rng)
+					w.callback(ir.state, w.authorizeDirect(ir.state), w.randomTokOpts(rng, true), "", reqSpec{note: "pending login: own state, direct code (ID token has no nonce)"}, rng)
+				}
+			} else {
+				if w.fullLogin("/start", w.randomTokOpts(rng, true), "", rng).ok {
+					w.callback("", w.authorizeDirect(""), w.randomTokOpts(rng, true), "rt-d1", reqSpec{note: "logged-in browser: no state, direct code (session swap attempt)"}, rng)
+					w.visit("/whoami", reqSpec{note: "after the attempt"})
+				}
+			}
 		case 1: // two tabs: second initiation overwrites the first; callback of the first tab is stale
 			w.visit("/tab1", reqSpec{note: "tab 1 initiates"})
 			ir1 := w.lastInit[w.b]
@@ -933,6 +1018,17 @@ func (w *world) scripted(prop string, sc int, rng *mrand.Rand) {
 		if sc%3 == 2 {
 			w.refreshSweep(sc/3, rng, "")
 			return
+		}
+		if sc%6 == 3 { // the provider withdraws the key a session's ID token was signed with, long before the token expires
+			o := w.randomTokOpts(rng, true)
+			o.expIn = []time.Duration{3 * time.Hour, 20 * time.Hour}[sc/6%2]
+			if w.fullLogin("/start", o, []string{"", "rt-1"}[sc/6%2], rng).ok {
+				w.plain("/before-rotation", reqSpec{}, rng)
+				w.snapshot()
+				w.rotateKeys(rng)
+				w.plain("/after-rotation", reqSpec{note: "the session's ID token is signed with a key the provider has withdrawn"}, rng)
+				w.plain("/after-rotation-2", reqSpec{}, rng)
+			}
 		}
 		if sc%2 == 0 {
 			w.fullLogin("/start", w.randomTokOpts(rng, true), []string{"", "rt-1"}[sc%2], rng)
